@@ -113,28 +113,28 @@ func runWorkload(r *corr.Run, wl int) {
 	rn.modelOps = []string{"reset"}
 	nOps := 8 + r.Intn(6)
 	rn.exec(rn.g.createSpace())
-	// size-directed single adds: the first workload of every run carries one batch of more than 512
-	// changes, the second one of ~50; thorough runs keep drawing from the whole ladder
-	big := 0
+	// directed operations, early so that a loaded machine still reaches them: the first workload of
+	// every run carries one remote batch of more than 512 changes and an AddAllNoError with a duplicate,
+	// the second a batch of ~50 and a derived child tree; thorough runs keep drawing from the size ladder
+	var forced []func() *opSpec
 	switch {
 	case wl == 0:
-		big = []int{513, 600}[r.Intn(2)]
+		n := []int{513, 600}[r.Intn(2)]
+		forced = []func() *opSpec{func() *opSpec { return rn.g.remoteSized(n) }, rn.g.noErrorAdd}
 	case wl == 1:
-		big = 40 + r.Intn(30)
+		n := 40 + r.Intn(30)
+		forced = []func() *opSpec{func() *opSpec { return rn.g.remoteSized(n) }, rn.g.treeCreateChild}
 	case !r.Quick() && wl%5 == 0:
-		big = []int{513, 600, 1100, 1537, 511, 512, 1024, 1025}[r.Intn(8)]
+		n := []int{513, 600, 1100, 1537, 511, 512, 1024, 1025}[r.Intn(8)]
+		forced = []func() *opSpec{func() *opSpec { return rn.g.remoteSized(n) }}
 	}
-	bigAt := 1 + r.Intn(3)
+	at := 1 + r.Intn(2)
 	for i := 1; i < nOps && !rn.dead && r.TimeLeft(); i++ {
 		var op *opSpec
-		switch {
-		case big > 0 && i == bigAt:
-			op = rn.g.remoteSized(big)
-		case wl%4 == 2 && i == bigAt:
-			op = rn.g.noErrorAdd() // every run exercises AddAllNoError (with a duplicate) …
-		case wl%4 == 3 && i == bigAt:
-			op = rn.g.treeCreateChild() // … and a derived tree bound to a parent
-		default:
+		if i >= at && len(forced) > 0 {
+			op = forced[0]()
+			forced = forced[1:]
+		} else {
 			op = rn.g.next()
 		}
 		if op == nil {
